@@ -124,8 +124,8 @@ Print Assumptions out_of_range_is_error.
 
 (* ---------------------------------------------------------------- Mech against Spec *)
 (* declaration (also with a call as initialiser and through a typedef alias), assignment, compound assignment, argument passing,
-   global scalar initialisers, ++/-- on variables, function results, multi-dimensional element stores and nested literals of
-   /repo behave as the property demands, for every type and every value *)
+   global scalar initialisers, ++/-- on variables, function results, multi-dimensional element stores, nested literals and (since
+   fix a3f0b3d) direct stores into struct members of /repo behave as the property demands, for every type and every value *)
 Theorem checked_paths_refine_spec : forall p, In p checked_paths -> forall t v, mech_store p t v = coerce t v.
 Proof. exact checked_paths_refine_l. Qed.
 Print Assumptions checked_paths_refine_spec.
@@ -257,15 +257,41 @@ Theorem whole_array_store_is_checked_refuted :  (* tiny[3] a; a = [1,300,3] read
 Proof. exact whole_array_store_is_checked_refuted_l. Qed.
 Print Assumptions whole_array_store_is_checked_refuted.
 
-(* struct members (direct: unsigned clamp only; nested / arrow / pointer / reference: nothing): a value the type admits is stored
-   exactly, a negative to a directly assigned unsigned member becomes 0, an out-of-range value is KEPT where the property demands an
-   error (findings C04-struct-member-unchecked, C04-pointer-store-unchecked, C04-reference-store-unchecked) *)
+(* struct members.  A direct member store - `s.m = e;`, `s.m op= e;`, `s.m++` / `--s.m`, `s.a[i] = e;` (element of a member array),
+   `Box<tiny> b; b.v = e;` (member of an instantiated generic struct) - is the demanded conversion for every type and every value
+   since fix a3f0b3d (named instance of checked_paths_refine_spec; findings C04-struct-member-unchecked and C04-generic-struct-member
+   are closed) *)
+Theorem member_store_is_checked : forall t v, mech_store PMember t v = coerce t v.
+Proof. exact member_store_is_checked_l. Qed.
+Print Assumptions member_store_is_checked.
+
+(* what the fix does not cover.  Struct literals (`S s = {m: e};`, positional, nested, generic: unsigned clamp only) and indirect
+   member stores (`o.in.m = e`, `p->m = e`, `ps[i].m = e`, `r.m = e` through a reference, `self.m = e`; also `*p = e`, `T& q = t; q = e`:
+   nothing): a value the type admits is stored exactly; a negative to an unsigned member becomes 0 in a literal and is KEPT on the
+   indirect paths; any other out-of-range value is KEPT where the property demands an error (findings C04-struct-literal-unchecked,
+   C04-nested-member-store-unchecked, C04-member-through-pointer-unchecked, C04-member-through-reference-unchecked,
+   C04-struct-array-member-unchecked, C04-pointer-store-unchecked, C04-reference-store-unchecked) *)
 Theorem member_store_partial : forall t v,
-  (in_range t v = true -> (uns t = true -> 0 <= v) -> mech_store PMember t v = coerce t v /\ mech_store PIndirect t v = coerce t v) /\
-  (uns t = true -> v < 0 -> mech_store PMember t v = coerce t v) /\
-  (in_range t v = false -> (uns t = false \/ 0 <= v) -> mech_store PMember t v = Val v /\ mech_store PIndirect t v = Val v /\ coerce t v = Fail ERange).
+  (in_range t v = true -> (uns t = true -> 0 <= v) -> mech_store PMemberLit t v = coerce t v /\ mech_store PIndirect t v = coerce t v) /\
+  (uns t = true -> v < 0 -> mech_store PMemberLit t v = coerce t v /\ mech_store PIndirect t v = Val v /\ coerce t v = Val 0) /\
+  (in_range t v = false -> (uns t = false \/ 0 <= v) -> mech_store PMemberLit t v = Val v /\ mech_store PIndirect t v = Val v /\ coerce t v = Fail ERange).
 Proof. exact member_store_l. Qed.
 Print Assumptions member_store_partial.
+
+Theorem struct_literal_is_checked_refuted :   (* struct S { tiny t; }; S s = {t: 200}; keeps 200 - while s.t = 200 is a range error now *)
+  mech_store PMemberLit tiny 200 = Val 200 /\ coerce tiny 200 = Fail ERange /\
+  mech_store PMemberLit utiny 256 = Val 256 /\ coerce utiny 256 = Fail ERange /\
+  mech_store PMemberLit utiny (-5) = Val 0 /\ coerce utiny (-5) = Val 0 /\
+  mech_store PMember tiny 200 = Fail ERange /\ mech_store PMember utiny 256 = Fail ERange.
+Proof. exact struct_literal_is_checked_refuted_l. Qed.
+Print Assumptions struct_literal_is_checked_refuted.
+
+Theorem indirect_member_store_is_checked_refuted :   (* o.inner.w = 40000 (short w) keeps 40000; p->t = 200 keeps 200; an unsigned short member keeps -2 *)
+  mech_store PIndirect tshort 40000 = Val 40000 /\ coerce tshort 40000 = Fail ERange /\
+  mech_store PIndirect tiny 200 = Val 200 /\ coerce tiny 200 = Fail ERange /\
+  mech_store PIndirect ushort (-2) = Val (-2) /\ coerce ushort (-2) = Val 0.
+Proof. exact indirect_member_store_is_checked_refuted_l. Qed.
+Print Assumptions indirect_member_store_is_checked_refuted.
 
 (* ---------------------------------------------------------------- non-vacuity *)
 Example sample_store :
